@@ -95,6 +95,20 @@ def generate(rng, tier, idx):
     if rng.random() < 0.3 and K["vars"]:
         x = pick(rng, K["vars"])["n"]
         inter.append({"op": "var_add", "var": x, "into": x})
+    own = []
+    leaves = [v for v in K["vars"] if v["parent"] is not None and not any(c["parent"] == v["n"] for c in K["vars"])]
+    if leaves and rng.random() < 0.35:
+        # "its own ancestor" with nothing else wrong: the ancestor is renamed so that its UID and arches line up with the
+        # (childless) descendant it is offered to - only the ancestry stands against the add - and renamed back afterwards
+        leaf = pick(rng, leaves)
+        anc = K["vars"][leaf["parent"]]
+        while anc["parent"] is not None and rng.random() < 0.5:
+            anc = K["vars"][anc["parent"]]
+        own = [{"op": "var_set", "var": anc["n"], "field": "uid", "value": "%s-%s" % (leaf["uid"], anc["id"])},
+               {"op": "var_set", "var": anc["n"], "field": "arches", "value": sorted(leaf["arches"])},
+               {"op": "var_add", "var": anc["n"], "into": leaf["n"]},
+               {"op": "var_set", "var": anc["n"], "field": "arches", "value": sorted(anc["arches"])},
+               {"op": "var_set", "var": anc["n"], "field": "uid", "value": anc["uid"]}]
     for _ in range(rng.randint(2, 8)):
         inter.append(getv_op(K, rng))
     path = "/sim/d/composeinfo.json"
@@ -117,6 +131,6 @@ def generate(rng, tier, idx):
             if others:
                 out.append({"op": "var_add", "var": v["n"], "into": pick(rng, others)})
         return out
-    tail = offers() + [{"op": "forest_check"}, getv_op(K, rng), getv_op(K, rng), {"op": "dump", "path": path},
+    tail = own + offers() + [{"op": "forest_check"}, getv_op(K, rng), getv_op(K, rng), {"op": "dump", "path": path},
                        {"op": "restart", "path": path, "via": "path"}] + offers() + [{"op": "forest_check"}, getv_op(K, rng), {"op": "dumps"}]
     return {"machine": "M-CI", "cfg": {"simset": pick(rng, ["insertion", "shuffle", "reverse"])}, "ops": head + body + tail}
